@@ -228,6 +228,12 @@ func (e *Engine) callWrites(c *ssa.CallCommon, depth int) *writeSet {
 	}
 	var fn *ssa.Function
 	if c.IsInvoke() {
+		if ifc := e.ifaceContract(c); ifc != nil {
+			for k, s := range e.ghostFamsOf(c.Value.Type()) {
+				ws.fams[k] = s
+			}
+			return ws
+		}
 		fn = e.devirtTarget(c)
 	} else {
 		switch v := c.Value.(type) {
@@ -242,6 +248,26 @@ func (e *Engine) callWrites(c *ssa.CallCommon, depth int) *writeSet {
 		for _, a := range c.Args {
 			e.typeReachFams(a.Type(), ws, 1)
 		}
+		return ws
+	}
+	if nm := fn.String(); strings.HasPrefix(nm, "sync/atomic.") && len(c.Args) > 0 {
+		if _, ok := e.natives[nm]; ok && !strings.HasPrefix(nm, "sync/atomic.Load") {
+			e.addrFams(c.Args[0], nil, ws, nil)
+			return ws
+		}
+	}
+	if nm := fn.String(); (nm == "sort.Slice" || nm == "sort.SliceStable") && len(c.Args) > 0 {
+		if mi, ok := c.Args[0].(*ssa.MakeInterface); ok {
+			if st, ok := mi.X.Type().Underlying().(*types.Slice); ok {
+				for k, s := range famKeysFor("E", st.Elem(), "", st.Elem()) {
+					ws.fams[k] = s
+				}
+				return ws
+			}
+		}
+	}
+	if nm := fn.String(); strings.HasPrefix(nm, "(encoding/binary.bigEndian).PutUint") {
+		ws.fams["E$uint8"] = SArr(SRef, SArr(SInt, SInt))
 		return ws
 	}
 	ws.add(e.funcWrites(fn, depth+1))
@@ -352,6 +378,46 @@ func (e *Engine) modifiesFams(fn *ssa.Function, fc *FuncContract) *writeSet {
 
 // ---------------------------------------------------------------- call dispatch
 
+// ifaceContract: assumed abstract contract declared on an interface method, e.g. (pkg/path.Engine).Put.
+func (e *Engine) ifaceContract(c *ssa.CallCommon) *FuncContract {
+	n, ok := c.Value.Type().(*types.Named)
+	if !ok || n.Obj().Pkg() == nil {
+		return nil
+	}
+	return e.contracts.Funcs["("+n.Obj().Pkg().Path()+"."+n.Obj().Name()+")."+c.Method.Name()]
+}
+
+// ifaceContractHidden: the contract asks not to be used inside some packages (where the concrete implementation is
+// verified against its own contracts): flag hidden_in <path-suffix>[,<path-suffix>...]
+func (e *Engine) ifaceContractHidden(fc *FuncContract, root *ssa.Function) bool {
+	h := fc.Flags["hidden_in"]
+	if h == "" {
+		return false
+	}
+	pp := fnPkgPath(root)
+	for _, s := range strings.FieldsFunc(h, func(r rune) bool { return r == ',' || r == ' ' }) {
+		if strings.HasSuffix(pp, s) {
+			return true
+		}
+	}
+	return false
+}
+
+// ghostFamsOf: heap families of all ghost fields declared on named type t (coarse footprint of abstract contracts).
+func (e *Engine) ghostFamsOf(t types.Type) map[string]*Sort {
+	out := map[string]*Sort{}
+	for _, g := range e.ghostsOf(t) {
+		vc := e.newVC(nil, nil)
+		env := vc.newEnv(e.typesPkg(g.PkgPath), nil, nil)
+		func() {
+			defer func() { recover() }()
+			gty := env.resolveTypeIn(g)
+			out["F$"+typeKey(t)+".$"+g.Field] = SArr(SRef, ghostSort(gty))
+		}()
+	}
+	return out
+}
+
 func (e *Engine) devirtTarget(c *ssa.CallCommon) *ssa.Function {
 	it := c.Value.Type()
 	impl := e.devirt[typeKey(it)]
@@ -371,11 +437,21 @@ func (fr *Frame) call(site ssa.Instruction, c *ssa.CallCommon, st *State, pos st
 		r := scalarOf(recv, c.Value.Type())
 		vc.oblige(st, "nil", fr.name("nil@invoke."+c.Method.Name()+"@"+shortPos(pos)), pos, "method call on nil interface: "+c.Method.Name(), mkNeq(r, tNull), nil)
 		vc.assume(st, mkNeq(r, tNull))
-		fn = vc.eng.devirtTarget(c)
 		args = append(args, recv)
 		for _, a := range c.Args {
 			args = append(args, fr.get(a))
 		}
+		// an (assumed) abstract contract on the interface method takes precedence over devirtualisation
+		if ifc := vc.eng.ifaceContract(c); ifc != nil && !(vc.root != nil && vc.eng.ifaceContractHidden(ifc, vc.root)) {
+			ifc.Used = true
+			var pkg *types.Package
+			if n, ok := c.Value.Type().(*types.Named); ok {
+				pkg = n.Obj().Pkg()
+			}
+			v := fr.ifaceContractCall(c.Signature(), c.Value.Type(), c.Method.Name(), pkg, ifc, args, st, pos)
+			return v, st, true
+		}
+		fn = vc.eng.devirtTarget(c)
 		if fn == nil {
 			vc.note("dynamic call havocked: " + typeKey(c.Value.Type()) + "." + c.Method.Name())
 			return vc.havocCall(st, c.Signature(), c, args, nil), st, true
@@ -419,14 +495,14 @@ func (fr *Frame) callStatic(fn *ssa.Function, bind []Val, args []Val, c *ssa.Cal
 	if fn.Origin() != nil {
 		key = fn.Origin().String()
 	}
-	if nat, ok := e.natives[key]; ok {
-		v := nat(fr, st, args, c, pos)
-		return v, st, true
-	}
 	fc := e.contracts.Funcs[key]
 	if fc != nil && !fc.Inline {
 		fc.Used = true
 		v := fr.contractCall(fn, fc, args, bind, st, pos)
+		return v, st, true
+	}
+	if nat, ok := e.natives[key]; ok {
+		v := nat(fr, st, args, c, pos)
 		return v, st, true
 	}
 	inline := false
